@@ -18,3 +18,18 @@ package main
 //@   modifies nothing
 //@ func httpStart
 //@   modifies nothing
+
+// Environment overrides of the configuration: a credential that is configured
+// (in the file or through either variable) is never blanked by the overrides -
+// blank credentials silently switch the auth middleware off in main.
+//@ func portCHEnv
+//@   modifies everything
+//@ func boolEnv
+//@   modifies nothing
+//@ func portEnv [C20]
+//@   check password-never-wiped: result == nil && (getenv("QRYN_PASSWORD") != "" || getenv("CLOKI_PASSWORD") != "") ==> cfg.Setting.AUTH_SETTINGS.BASIC.Password != ""
+//@   check password-legacy-variable-wins: result == nil && getenv("CLOKI_PASSWORD") != "" ==> cfg.Setting.AUTH_SETTINGS.BASIC.Password == getenv("CLOKI_PASSWORD")
+//@   check password-from-variable: result == nil && getenv("CLOKI_PASSWORD") == "" && getenv("QRYN_PASSWORD") != "" ==> cfg.Setting.AUTH_SETTINGS.BASIC.Password == getenv("QRYN_PASSWORD")
+//@   check login-never-wiped: result == nil && (getenv("QRYN_LOGIN") != "" || getenv("CLOKI_LOGIN") != "") ==> cfg.Setting.AUTH_SETTINGS.BASIC.Username != ""
+//@   check login-legacy-variable-wins: result == nil && getenv("CLOKI_LOGIN") != "" ==> cfg.Setting.AUTH_SETTINGS.BASIC.Username == getenv("CLOKI_LOGIN")
+//@   check login-from-variable: result == nil && getenv("CLOKI_LOGIN") == "" && getenv("QRYN_LOGIN") != "" ==> cfg.Setting.AUTH_SETTINGS.BASIC.Username == getenv("QRYN_LOGIN")
